@@ -54,6 +54,7 @@ func cmdVerify(args []string) {
 	}
 	eng := newEngine(repoDir())
 	eng.sequential = os.Getenv("GOVC_SEQUENTIAL") != ""
+	eng.noContentIDExt = os.Getenv("GOVC_NO_CONTENT_ID_EXT") != ""
 	if err := eng.load(strings.Split(args[0], ",")...); err != nil {
 		fmt.Fprintln(os.Stderr, "TOOL-ERROR:", err)
 		os.Exit(2)
